@@ -21,9 +21,9 @@ func init() {
 				Harness{Fn: "ZZC03LexSeq", Quick: p("M", 4), Thorough: p("M", 5, "A", 13), ThoroughBudget: 20 * time.Minute, Expect: []string{"eof", "illegal", "ident", "string", "witness:end"}},
 			),
 			parserUnit([]string{"parser/c03p.go"},
-				Harness{Fn: "ZZC03Parser", Quick: p("E", 1, "INS", 28), Thorough: p("E", 2, "INS", 45), ThoroughBudget: 20 * time.Minute, Expect: []string{"accepted", "rejected", "witness:end"}},
+				Harness{Fn: "ZZC03Parser", Quick: p("E", 1, "INS", 28), Thorough: p("E", 1, "INS", 45), ThoroughBudget: 40 * time.Minute, Expect: []string{"accepted", "rejected", "witness:end"}},
 				Harness{Fn: "ZZC03Locate", Quick: p("K", 3), Thorough: p("K", 4), Expect: []string{"locate-ok", "witness:end"}},
-				Harness{Fn: "ZZC03Tokens", Quick: p("L", 2), Thorough: p("L", 3), ThoroughBudget: 25 * time.Minute, Expect: []string{"accepted", "rejected", "witness:end"}},
+				Harness{Fn: "ZZC03Tokens", Quick: p("L", 2), Thorough: p("L", 3, "A", 30), ThoroughBudget: 45 * time.Minute, Expect: []string{"accepted", "rejected", "witness:end"}},
 			),
 		},
 		Assumptions: []string{
@@ -32,7 +32,7 @@ func init() {
 			"parser: inputs are all single (thorough: double) token-level edits — truncation at every code point, deletion, duplication, replacement by and insertion of each of 37 fragments — of a corpus of 16 valid programs covering every statement and expression form; builtins: print, len, has, cls, on key/down, err",
 			"lexer: every code point of the input is an unconstrained Unicode scalar value; unicode.IsLetter/IsDigit are the range tables of the Go release the engine is built with, as bit-vector formulas; strconv.Unquote is a nondeterministic stub",
 		},
-		Outside:   []string{"inputs longer than N code points (lexer)", "parser inputs outside the edit neighbourhood of the corpus", "invalid UTF-8 byte sequences (Go converts them to U+FFFD before the lexer sees them)"},
+		Outside:   []string{"inputs longer than N code points (lexer)", "parser inputs outside the single-edit neighbourhood of the corpus and the lexeme sequences of ZZC03Tokens (two simultaneous edits of a corpus program were explored during development but do not finish within a stated budget and are not claimed)", "invalid UTF-8 byte sequences (Go converts them to U+FFFD before the lexer sees them)"},
 		LevelText: "bounded exploration of parser.Parse (newParser, consumeTokens, parseFuncSignatures, parseProgram and every parse* function, wrapAny, appendErrorForToken) on every edit of the corpus: no host panic (implicit check on every path), program xor non-empty located errors, each error token's line/column recomputed from its offset; and bounded symbolic execution of lexer.Next/advance/readString/readWhile/readIdent/readNum/readComment/lookupKeyword/IsIdent on rune vectors of every length up to N with fully symbolic code points: termination within n+1 tokens, tiling, and line/column bookkeeping",
 		LevelNote: "trusts the rune-vector string model of the engine and cvc5",
 		DesignRef: "DESIGN.md §6 C03",
